@@ -54,6 +54,12 @@ def run(eng, ctx):
     ctx.notes["exhaustive"] = True
     ctx.notes["shape_depths"] = {str(d): sum(1 for (_, dd) in sh if dd == d) for d in sorted({dd for _, dd in sh})}
 
+    # one case per (key, depth, digit lengths): every group index has two digits (1..99) or three (100..999)
+    import itertools
+
+    cases = [(key, depth, lens) for (key, depth) in sorted(sh) for lens in itertools.product((2, 3), repeat=depth)]
+    ctx.notes["abstract_cases"] = len(cases)
+
     def hook_for(mod):
         def hook(name, args):
             fi = eng.repo.funcs.get(f"{mod}.{name}")
@@ -71,10 +77,10 @@ def run(eng, ctx):
     construct = "key derivation " + (norm(cons[0].slice) if cons and isinstance(cons[0], ast.Subscript) else norm(cons[0]) if cons else "<none>")
     fails, und = {}, []
     n = 0
-    for (key, depth), (ident, prov) in sorted(sh.items()):
+    for key, depth, lens in cases:
         n += 1
         ai = StrAI(f.node, g, hook_for(f.module))
-        shape = name_shape(key, depth)
+        shape = name_shape(key, depth, lens)
         try:
             r = ai.run({f.params[0]: shape})
         except AbstractRaise as err:
@@ -101,7 +107,7 @@ def run(eng, ctx):
     if fails:
         total = sum(len(v) for v in fails.values())
         found = "; ".join(f"{k}: {len(v)} shapes e.g. {', '.join(v[:3])}" for k, v in sorted(fails.items()))
-        ctx.bad("C19.D1", f.qualname, construct, expected=f"table key == KEY for all {len(sh)} shapes", found=f"{total} of {len(sh)} shapes fail - {found}", **loc)
+        ctx.bad("C19.D1", f.qualname, construct, expected=f"table key == KEY for all {len(cases)} shape cases ({len(sh)} (key, depth) shapes x digit lengths)", found=f"{total} of {len(cases)} shape cases fail - {found}", **loc)
     else:
         ctx.ok("C19.D1", f.qualname, construct, found=f"{n - len(und)} shapes map to their own KEY", **loc)
     for u in und[:3]:
@@ -114,12 +120,12 @@ def run(eng, ctx):
         f = eng.repo.func(qual)
         ctx.touch(func=f.qualname)
         fails, und, m = {}, [], 0
-        for (key, depth), (ident, prov) in sorted(sh.items()):
+        for key, depth, lens in cases:
             if depth < 1:
                 continue
             m += 1
             ai = StrAI(f.node, g, hook_for(f.module))
-            shape = name_shape(key, depth)
+            shape = name_shape(key, depth, lens)
             try:
                 r = ai.run({f.params[0]: shape})
             except AbstractRaise as err:
@@ -129,7 +135,7 @@ def run(eng, ctx):
                 und.append(f"{shape.show()}: {err}")
                 continue
             if rid == "C19.D2":
-                want = ("digval", 0) if depth == 1 else tuple(("digval", k) for k in range(depth))
+                want = ("digval", 0, lens[0]) if depth == 1 else tuple(("digval", k, lens[k]) for k in range(depth))
                 good = r == want or (isinstance(r, list) and depth > 1 and False)
             else:
                 want = AStr.lit(key)
